@@ -218,10 +218,35 @@ def gen_mutate(rng, profile):
     nh = 0
     nested_made = set()
     live = set()
+    script = []
+    if profile == "handles" and rng.random() < 0.3:
+        # a scripted opening: a match below a filter / rec / nested root (its parent is a bookkeeping match), the
+        # container replaced through the parent Match or through the match itself, then writes / a nested search
+        locs = [l for l in locations(doc) if len(l) >= 2]
+        if locs:
+            loc = rng.choice(locs)
+            par_steps = [["k", nm] if isinstance(nm, str) else ["i", nm] for nm in loc[:-1]]
+            last = ["k", loc[-1]] if isinstance(loc[-1], str) else ["i", loc[-1]]
+            filt = ["f", rng.choice([["all", []], ["not", ["p", [["k", "nope"]]], []]])]
+            newc = copy.deepcopy(node_at(doc, loc[:-1]))
+            variant = rng.random()
+            if variant < 0.5:
+                script = [["h.new", 0, par_steps + [filt] * rng.randint(1, 2) + [last], 0], ["h.parent", 1, 0],
+                          ["h.assign", 1, ["new", enc(newc)]],
+                          rng.choice([["h.assign", 0, ["new", enc(rng.choice(VALS))]], ["h.pop", 0, ["none"]], ["h.del", 0]]),
+                          ["h.data", 0]]
+            else:
+                script = [["h.new", 0, par_steps + [filt], 0], ["h.assign", 0, ["new", enc(newc)]],
+                          ["h.nested", 1, 0, rng.choice([[last], [["gwc"]], []]), 0],
+                          rng.choice([["h.assign", 1, ["new", enc(rng.choice(VALS))]], ["h.pop", 1, ["none"]], ["h.del", 1]])]
+            live.update({0, 1})
+            nh = 1
     prev_paths = []
     for _ in range(nops):
         r = rng.random()
-        if (profile in ("set", "cascade") and rng.random() < 0.15) or profile == "mset":
+        if script:
+            op = script.pop(0)
+        elif (profile in ("set", "cascade") and rng.random() < 0.15) or profile == "mset":
             op = gen_mset(rng, shadow, cascade=(profile == "cascade" or (profile == "mset" and rng.random() < 0.3)))
         elif profile == "set":
             steps, _ = target_path(rng, shadow)
